@@ -22,7 +22,7 @@
    Python's negative list index on `self.indexers[ind]` (reachable with negative strides) is
    modelled by [py_nth]. *)
 From Coq Require Import ZArith List Bool.
-From KV Require Import Base.Sx Base.PySlice Base.AxisIndex Base.NdArray Base.LazyDType Model.LazyIdx.
+From KV Require Import Base.Sx Base.PySlice Base.AxisIndex Base.NdArray Base.LazyDType Gen.Generated Model.LazyIdx.
 Import ListNotations.
 Open Scope Z_scope.
 
@@ -62,7 +62,7 @@ Definition c_dtype (c : concat) : res Z :=
 
 Definition c_mk (raws : list craw) (ts : list tr) : res concat :=
   ps <- mapM (fun r => li <- mk_lazy (r_shape r) (r_keep r) [] (r_dt r) ;; Ok (mk_cpart li (r_ds r))) raws ;;
-  let ne := filter (fun p => negb (part_len p =? 0)) ps in
+  let ne := filter (fun p => concat_part_kept (part_len p)) ps in     (* `if indexer.shape[0]` (generated) *)
   let used := match ne with [] => firstn 1 ps | _ => ne end in
   let c := mk_concat used ts in
   _ <- c_shape c ;; _ <- c_dtype c ;; Ok c.
@@ -70,9 +70,9 @@ Definition c_mk (raws : list craw) (ts : list tr) : res concat :=
 (* indexer_starts = cumsum([0] + lens[:-1]) *)
 Fixpoint starts_from (off : Z) (lens : list Z) : list Z :=
   match lens with [] => [] | n :: r => off :: starts_from (off + n) r end.
-(* indexer_starts.searchsorted(index, side='right') - 1 *)
+(* indexer_starts.searchsorted(index, side='right') - 1: the side and the adjustment are generated from the source *)
 Definition find_indexer (starts : list Z) (index : Z) : Z :=
-  zlen (filter (fun s => s <=? index) starts) - 1.
+  concat_find_indexer (zlen (filter (fun s => concat_searchsorted_before s index) starts)).
 
 (* Python list indexing with a possibly negative integer *)
 Definition py_nth {A} (l : list A) (i : Z) : res A :=
@@ -125,20 +125,36 @@ Fixpoint scatter_parts (dt : Z) (ps : list cpart) (ind : Z) (starts : list Z) (h
   | p :: ps', off :: starts' =>
       let mask := map (fun i => i =? ind) inds in
       out' <- (if existsb (fun b => b) mask
-               then sub <- part_get dt p (AList (map (fun z => z - off) (select mask head)) :: tail) ;;
+               then sub <- part_get dt p (AList (map (fun z => concat_local_list z off) (select mask head)) :: tail) ;;
                     scatter out inds ind (children (nd_body (a_nd sub)))
                else Ok out) ;;
       scatter_parts dt ps' (ind + 1) starts' head inds tail out'
   | _, _ => Ok out
   end.
 
-(* one chunk of the slice branch: indexer [ind] asked for slice(chunk_start, chunk_stop, stride) *)
+(* one chunk of the slice branch: indexer [ind] asked for slice(chunk_start, chunk_stop, stride); chunk_start and
+   chunk_stop are the expressions of the source (generated) *)
 Definition slice_chunk (dt : Z) (ps : list cpart) (starts : list Z) (tail : list aidx) (shape_tails : list Z)
            (start stop stride : Z) (ind : Z) : res arr :=
   p <- py_nth ps ind ;; off <- py_nth starts ind ;;
-  let cs := if off <=? start then start - off else (start - off) mod stride in
-  sub <- part_get dt p (ASlice (Some cs) (Some (stop - off)) (Some stride) :: tail) ;;
+  let cs := concat_chunk_start start stop off stride in
+  sub <- part_get dt p (ASlice (Some cs) (Some (concat_chunk_stop start stop off stride)) (Some stride) :: tail) ;;
   reshape_chunk shape_tails sub.
+
+(* the loop over the indexers that overlap the slice: an indexer from which nothing is selected is skipped once a
+   chunk exists (`if chunks and chunk_start >= chunk_stop: continue`, generated) *)
+Fixpoint slice_chunks (dt : Z) (ps : list cpart) (starts : list Z) (tail : list aidx) (shape_tails : list Z)
+         (start stop stride : Z) (have_chunks : bool) (inds : list Z) : res (list arr) :=
+  match inds with
+  | [] => Ok []
+  | ind :: r =>
+      off <- py_nth starts ind ;;
+      if concat_chunk_skipped have_chunks (concat_chunk_start start stop off stride) (concat_chunk_stop start stop off stride)
+      then slice_chunks dt ps starts tail shape_tails start stop stride have_chunks r
+      else c <- slice_chunk dt ps starts tail shape_tails start stop stride ind ;;
+           rest <- slice_chunks dt ps starts tail shape_tails start stop stride true r ;;
+           Ok (c :: rest)
+  end.
 
 (* one chunk of the mask branch: the part of the mask that covers indexer (p, off, len) *)
 Definition mask_chunk (dt : Z) (m : list bool) (tail : list aidx) (shape_tails : list Z) (q : cpart * Z * Z) : res arr :=
@@ -151,19 +167,19 @@ Definition c_head (ps : list cpart) (dt total : Z) (S : list sel) (head : aidx) 
   let starts := starts_from 0 lens in
   match head with
   | AInt z =>
-      let z' := if z <? 0 then total + z else z in
-      if (0 <=? z') && (z' <? total) then
+      let z' := concat_norm_scalar total z in
+      if concat_scalar_rejected total z' then Err else
         let ind := find_indexer starts z' in
         p <- py_nth ps ind ;; off <- py_nth starts ind ;;
-        part_get dt p (AInt (z' - off) :: tail)
-      else Err
+        part_get dt p (AInt (concat_local_scalar z' off) :: tail)
   | ASlice a b cc =>
       match slice_indices total a b cc with
       | None => Err
       | Some (start, stop, stride) =>
-          if stride <? 0 then Err else
-          chunks <- mapM (slice_chunk dt ps starts tail shape_tails start stop stride)
-                         (py_range (find_indexer starts start) (find_indexer starts stop + 1) 1) ;;
+          if concat_stride_rejected stride then Err else
+          chunks <- slice_chunks dt ps starts tail shape_tails start stop stride false
+                      (py_range (concat_first_indexer (find_indexer starts start) (find_indexer starts stop))
+                                (concat_end_indexer (find_indexer starts start) (find_indexer starts stop)) 1) ;;
           concat_chunks dt shape_tails chunks
       end
   | AMask m =>
@@ -173,7 +189,7 @@ Definition c_head (ps : list cpart) (dt total : Z) (S : list sel) (head : aidx) 
       else Err
   | AList l =>
       _ <- mapM (wrap_res total) l ;;                           (* final_shape: np.arange(total)[l] *)
-      let l' := map (fun z => if z <? 0 then z + total else z) l in
+      let l' := map (concat_norm_list total) l in
       let inds := map (find_indexer starts) l' in
       rows <- scatter_parts dt ps 0 starts l' inds tail (repeat None (List.length l)) ;;
       rows' <- mapM (fun o => match o with Some t => Ok t | None => Err end) rows ;;
